@@ -30,6 +30,9 @@ var c15Patterns = []struct{ SQL, Re string }{
 }
 
 func (c15) Gen(rng *simrt.Rand, seed uint64, tier string) *Case {
+	if rng.Bool(0.25) {
+		return genC15Prev(rng, tier)
+	}
 	c := &Case{X: map[string]any{}}
 	pat := c15Patterns[rng.Intn(len(c15Patterns))]
 	skipNext := rng.Bool(0.35)
@@ -144,6 +147,10 @@ type c15Match struct{ First, Last string }
 const c15ClockShift = 25 * 365 * 24 * time.Hour
 
 func (c15) Run(e *Env) {
+	if e.C.Variant == "prev" {
+		runC15Prev(e)
+		return
+	}
 	if e.C.xStr("domain") != "seq" {
 		time.Sleep(c15ClockShift)
 	}
